@@ -314,30 +314,40 @@ class UCMM( device.Object ):
                                     # it; that was their failure, not ours: carry on with a fresh connection.
                                     if self.route_conn.get( target ) is not route:
                                         continue
-                                    # Trim route_path; if empty, send with no route_path (Simple; no routing
-                                    # encapsulation).  Otherwise, send with remaining route_path.
-                                    sub_rp	= route_path[1:] or []
-                                    sub_sp	= unc_send.path.segment if sub_rp else ''
-                                    if log.isEnabledFor( logging.DETAIL ):
-                                        log.detail( "%r Route %s --> %s Request (RP: %s, SP: %s) %s", self, portlink,
-                                                    route, sub_rp, sub_sp,
-                                                    parser.enip_format( unc_send.request ) if log.isEnabledFor( logging.INFO ) else "" )
-                                    conn.unconnected_send( request=unc_send.request,
-                                        route_path=sub_rp, send_path=sub_sp, timeout=timeout,
-                                        sender_context=data.enip.sender_context.input )
-                                    rsp,ela	= client.await_response( conn, timeout=timeout )
-                                    assert rsp, \
-                                        "No response from %s --> %s:%s within %sms timeout" % (
-                                            portlink, target[0], target[1], timeoutms )
-                                    assert rsp.enip.status == 0, \
-                                        "Error status %s in EtherNet/IP Response from Route %s --> %s" % (
-                                            rsp.enip.status, portlink, route )
-                                    # Return the unconnected_send response from the client, as our own.
-                                    if log.isEnabledFor( logging.DETAIL ):
-                                        log.detail( "%r Route %s --> %s Response %s", self, portlink,
-                                                    route,
-                                                    parser.enip_format( rsp ) if log.isEnabledFor( logging.INFO ) else "" )
-                                    unc_send= rsp.enip.CIP.send_data.CPF.item[1].unconnected_send
+                                    try:
+                                        # Trim route_path; if empty, send with no route_path (Simple; no routing
+                                        # encapsulation).  Otherwise, send with remaining route_path.
+                                        sub_rp	= route_path[1:] or []
+                                        sub_sp	= unc_send.path.segment if sub_rp else ''
+                                        if log.isEnabledFor( logging.DETAIL ):
+                                            log.detail( "%r Route %s --> %s Request (RP: %s, SP: %s) %s", self, portlink,
+                                                        route, sub_rp, sub_sp,
+                                                        parser.enip_format( unc_send.request ) if log.isEnabledFor( logging.INFO ) else "" )
+                                        conn.unconnected_send( request=unc_send.request,
+                                            route_path=sub_rp, send_path=sub_sp, timeout=timeout,
+                                            sender_context=data.enip.sender_context.input )
+                                        rsp,ela	= client.await_response( conn, timeout=timeout )
+                                        assert rsp, \
+                                            "No response from %s --> %s:%s within %sms timeout" % (
+                                                portlink, target[0], target[1], timeoutms )
+                                        assert rsp.enip.status == 0, \
+                                            "Error status %s in EtherNet/IP Response from Route %s --> %s" % (
+                                                rsp.enip.status, portlink, route )
+                                        # Return the unconnected_send response from the client, as our own.
+                                        if log.isEnabledFor( logging.DETAIL ):
+                                            log.detail( "%r Route %s --> %s Response %s", self, portlink,
+                                                        route,
+                                                        parser.enip_format( rsp ) if log.isEnabledFor( logging.INFO ) else "" )
+                                        unc_send= rsp.enip.CIP.send_data.CPF.item[1].unconnected_send
+                                    except Exception:
+                                        # Retire the failed route while we still hold it: once released, a
+                                        # session queued for it would find it still registered, send on it
+                                        # and receive the late response to our request.
+                                        with self.route_lock:
+                                            if self.route_conn.get( target ) is route:
+                                                self.route_conn.pop( target )
+                                        route.close()
+                                        raise
                                 break
                         except Exception as exc:
                             # Failure
